@@ -262,6 +262,24 @@ func matrix(out *bufio.Writer, full bool) {
 		}
 		out.Write(plib.MarshalLine(mcase{Doc: doc, Targets: ts, Class: class, Chunks: []string{"whole", "1", "half"}}))
 	}
+	// scalar and empty roots (a bare top-level value is complete only at end of input: the Load variants must flush it),
+	// and the root itself as a target
+	small := []jl.Node{I(42), I(-7), I(0), S("s"), S(""), jl.Bool(true), jl.Bool(false), jl.Null(), A(), O(), A(I(1)), O("a", I(1))}
+	smenu := [][]jl.Frag{{jl.FRoot()}, {jl.FRoot(), jl.FChild("a")}, {jl.FRoot(), jl.FNth(0)}, {jl.FRoot(), jl.FDesc(), jl.FChild("a")}, {jl.FRoot(), jl.FWild()}, {jl.FRoot(), jl.FNth(-1)}}
+	for _, d := range small {
+		for i := range smenu {
+			emit(d, smenu[i])
+			if i > 0 {
+				emit(d, smenu[0], smenu[i])
+				emit(d, smenu[i], smenu[0])
+			}
+		}
+	}
+	for _, d := range docs {
+		emit(d, smenu[0])
+		emit(d, smenu[0], menu[0])
+		emit(d, menu[9], smenu[0])
+	}
 	for di, d := range docs {
 		for i := range menu {
 			emit(d, menu[i])
